@@ -134,3 +134,21 @@ Lemma tie_neon_value fb fuel c : gl_neon_value fb fuel c = neon_match_header_val
 Proof. unfold gl_neon_value, gl_neon_value_body, gl_neon_value_init, neon_match_header_value_vectored. simd_tie 16. Qed.
 Lemma tie_neon_name fb fuel c : gl_neon_name fb fuel c = neon_match_header_name_vectored fb fuel c.
 Proof. unfold gl_neon_name, gl_neon_name_body, gl_neon_name_init, neon_match_header_name_vectored. simd_tie 16. Qed.
+
+(* every translated loop shell at once (restated at the end of the env-parametric theorem files) *)
+Definition loop_shells_tied : Prop := forall W fb fuel c,
+  gl_swar_uri W fuel c = swar_uri W fuel c /\ gl_swar_value W fuel c = swar_value W fuel c /\
+  gl_swar_name W fuel c = swar_name W fuel c /\
+  gl_sse42_uri fb fuel c = sse42_match_uri_vectored fb fuel c /\
+  gl_sse42_value fb fuel c = sse42_match_header_value_vectored fb fuel c /\
+  gl_avx2_uri fb fuel c = avx2_match_uri_vectored fb fuel c /\
+  gl_avx2_value fb fuel c = avx2_match_header_value_vectored fb fuel c /\
+  gl_neon_uri fb fuel c = neon_match_uri_vectored fb fuel c /\
+  gl_neon_value fb fuel c = neon_match_header_value_vectored fb fuel c /\
+  gl_neon_name fb fuel c = neon_match_header_name_vectored fb fuel c.
+Lemma loop_shells_tied_pf : loop_shells_tied.
+Proof.
+  intros W fb fuel c. repeat split; first [apply tie_swar_uri | apply tie_swar_value | apply tie_swar_name | apply tie_sse42_uri
+    | apply tie_sse42_value | apply tie_avx2_uri | apply tie_avx2_value | apply tie_neon_uri | apply tie_neon_value
+    | apply tie_neon_name].
+Qed.
